@@ -131,7 +131,14 @@ def run_one(mod, tier, seed, index, spec):
     signal.setitimer(signal.ITIMER_PROF, timeout)
     signal.setitimer(signal.ITIMER_REAL, 6 * timeout)
     try:
+        if getattr(mod, "FORMAT_TWIN", False):
+            # ambient monitor on System's matrix-valued methods (vlib/formattwin.py), drained into this case's record
+            env.import_cardillo()
+            from . import formattwin
+            formattwin.install(int(getattr(mod, "FORMAT_TWIN_EVERY", 3)))
         mod.run_case(spec, ctx)
+        if getattr(mod, "FORMAT_TWIN", False):
+            formattwin.drain(ctx)
     except CaseTimeout:
         ctx.undecided(f"case timeout {timeout}s")
         ctx.rec["timeout"] = True
